@@ -838,6 +838,29 @@ def _whole_defs(body, l):
     return [(loc, k) for loc, k in body.reaching().all_sites(l) if k == "whole"]
 
 
+def _through_copies(body, l):
+    """Follow `x = move y` when EVERY definition of x is that same copy (a dispatch block duplicated by
+    jump threading defines its locals once per copy)."""
+    for _ in range(6):
+        defs = _whole_defs(body, l)
+        if not defs or len(body.reaching().all_sites(l)) != len(defs):
+            return l
+        srcs = set()
+        for (bb, i), _k in defs:
+            st = body.stmts(bb)
+            if i >= len(st):
+                return l
+            rv = st[i]["rv"]
+            if rv["k"] == "use" and rv["op"]["k"] in ("copy", "move") and not rv["op"]["place"]["proj"]:
+                srcs.add(rv["op"]["place"]["local"])
+            else:
+                return l
+        if len(srcs) != 1:
+            return l
+        l = next(iter(srcs))
+    return l
+
+
 def alias_of(body, l, depth=0):
     """Follow single-definition temporaries syntactically.
 
@@ -858,6 +881,37 @@ def alias_of(body, l, depth=0):
     rv = st[i]["rv"]
     if rv["k"] == "use" and rv["op"]["k"] in ("copy", "move") and not rv["op"]["place"]["proj"]:
         return alias_of(body, rv["op"]["place"]["local"], depth + 1)
+    if rv["k"] == "use" and rv["op"]["k"] in ("copy", "move") and rv["op"]["place"]["proj"]:
+        # a value taken back out of a wrapper it was moved into: `x = Some(v); .. y = (x as Some).0`
+        # is the object v.  A downcast to variant V can only read a value built as V, so among several
+        # definitions of the wrapper (Some(..) on one path, None on another) only the V-literals count.
+        pp = rv["op"]["place"]
+        pj = pp["proj"]
+        if pj[-1]["k"] == "field" and all(e["k"] in ("downcast", "field") for e in pj) and len(pj) <= 2:
+            variant = pj[0].get("variant") if pj[0]["k"] == "downcast" else None
+            r, mode, pr = alias_of(body, _through_copies(body, pp["local"]), depth + 1)
+            r = _through_copies(body, r) if mode == "val" and not pr else r
+            if mode == "val" and not pr:
+                cands = []
+                for (dbb, di), k in _whole_defs(body, r):
+                    dst = body.stmts(dbb)
+                    if di < len(dst) and dst[di]["rv"]["k"] == "aggregate" and dst[di]["rv"].get("agg") in ("adt", "tuple"):
+                        if variant is None or dst[di]["rv"].get("variant") == variant:
+                            cands.append(dst[di]["rv"])
+                    elif di < len(dst) and dst[di]["rv"]["k"] == "use" and dst[di]["rv"]["op"]["k"] in ("copy", "move") and not dst[di]["rv"]["op"]["place"]["proj"]:
+                        # wrapper copied from another local with its own definitions: follow one level
+                        r2 = dst[di]["rv"]["op"]["place"]["local"]
+                        for (d2b, d2i), k2 in _whole_defs(body, r2):
+                            d2 = body.stmts(d2b)
+                            if d2i < len(d2) and d2[d2i]["rv"]["k"] == "aggregate" and d2[d2i]["rv"].get("agg") in ("adt", "tuple"):
+                                if variant is None or d2[d2i]["rv"].get("variant") == variant:
+                                    cands.append(d2[d2i]["rv"])
+                if len(cands) == 1:
+                    fi = pj[-1]["i"]
+                    fs = cands[0]["fields"]
+                    if fi < len(fs) and fs[fi]["k"] in ("copy", "move") and not fs[fi]["place"]["proj"]:
+                        return alias_of(body, fs[fi]["place"]["local"], depth + 1)
+        return (l, "val", [])
     if rv["k"] == "ref":
         p = rv["place"]
         if p["proj"] and p["proj"][0]["k"] == "deref":
